@@ -27,7 +27,6 @@ import (
 	"github.com/attestantio/go-eth2-client/spec/altair"
 	"github.com/attestantio/go-eth2-client/spec/bellatrix"
 	"github.com/attestantio/go-eth2-client/spec/phase0"
-	mockaccountmanager "github.com/attestantio/vouch/services/accountmanager/mock"
 	standardattester "github.com/attestantio/vouch/services/attester/standard"
 	"github.com/attestantio/vouch/services/beaconblockproposer"
 	"github.com/attestantio/vouch/services/beaconcommitteesubscriber"
@@ -49,7 +48,10 @@ import (
 )
 
 type Op struct {
-	K       string   `json:"k"` // sched | start | finish | refresh | subscribe | head | message | aggregate | auction
+	K string `json:"k"` // sched | start | finish | refresh | subscribe | head | message | aggregate | auction | bid
+	// auction: AuctionBlock(S, ..), the proposal path; bid: BuilderBid(S, ..), the builder API that Vouch
+	// serves (answered from the cache if the slot's bid is cached, else an auction whose result is cached).
+	// Neither path compares S with the chain time: S is whatever was asked for.
 	Cur     uint64   `json:"cur,omitempty"`
 	S       uint64   `json:"s,omitempty"`
 	E       uint64   `json:"e,omitempty"`
@@ -84,6 +86,9 @@ type Row struct {
 	Sizes   []uint64 `json:"sizes"`
 	Running []uint64 `json:"running"`
 	Probes  []Probe  `json:"probes"`
+	// slots of builderBidsCache, ascending: after every auction / bid and whenever they changed
+	// (nil: as in the previous row)
+	Bids *[]uint64 `json:"bids,omitempty"`
 }
 
 type SoakObs struct {
@@ -280,7 +285,12 @@ func (e *soakEnv) SubmitSyncCommitteeContributions(context.Context, []*altair.Si
 	return nil
 }
 
-// block relay side
+// block relay side: the proposal path (AuctionBlock) looks the proposer's account up; the builder API
+// path (BuilderBid -> immediateBuilderBid) runs the auction without an account
+func (e *soakEnv) AccountByPublicKey(_ context.Context, _ phase0.BLSPubKey) (e2wtypes.Account, error) {
+	return newSoakAccount(1), nil
+}
+
 type soakExecConfig struct{}
 
 func (soakExecConfig) ProposerConfig(context.Context, e2wtypes.Account, phase0.BLSPubKey, bellatrix.ExecutionAddress, uint64) (*beaconblockproposer.ProposerConfig, error) {
@@ -375,7 +385,7 @@ func runSoakInBubble(t *testing.T, in *SoakInput) (obs SoakObs) {
 		obs.Problem = "messenger: " + err.Error()
 		return obs
 	}
-	relay := standardblockrelay.NewForVerifC09(level, mockaccountmanager.NewAccountsProvider(), soakExecConfig{}, soakBidStrategy{},
+	relay := standardblockrelay.NewForVerifC09(level, e, soakExecConfig{}, soakBidStrategy{},
 		map[phase0.BLSPubKey]*blockrelay.BuilderConfig{})
 	ctrl := standardcontroller.NewForVerif(&standardcontroller.VerifDeps{
 		LogLevel:                     level,
@@ -405,6 +415,18 @@ func runSoakInBubble(t *testing.T, in *SoakInput) (obs SoakObs) {
 		}
 		return n
 	}
+	var prevBids []uint64
+	sameSlots := func(a, b []uint64) bool {
+		if len(a) != len(b) {
+			return false
+		}
+		for i := range a {
+			if a[i] != b[i] {
+				return false
+			}
+		}
+		return true
+	}
 	observe := func(op *Op) Row {
 		running := e.running()
 		r := Row{Running: running, Probes: []Probe{}}
@@ -417,6 +439,10 @@ func runSoakInBubble(t *testing.T, in *SoakInput) (obs SoakObs) {
 			uint64(aggregator.VerifC20BeaconBlockRootsLen()),
 			uint64(messenger.VerifC20SlotDataRecordsLen()),
 			uint64(relay.VerifC20BuilderBidsCacheLen()),
+		}
+		if bids := relay.VerifC20BuilderBidsCacheSlots(); op.K == "auction" || op.K == "bid" || !sameSlots(bids, prevBids) {
+			r.Bids = &bids
+			prevBids = bids
 		}
 		// slots in play: named by this op, executing, and the current slot (a mark left anywhere
 		// else shows in the sizes: marks = jobs + executing)
@@ -502,6 +528,8 @@ func runSoakInBubble(t *testing.T, in *SoakInput) (obs SoakObs) {
 				Accounts:        map[phase0.ValidatorIndex]e2wtypes.Account{}})
 		case "auction":
 			_, _ = relay.AuctionBlock(ctx, phase0.Slot(op.S), phase0.Hash32{byte(op.S)}, phase0.BLSPubKey{1})
+		case "bid":
+			_, _ = relay.BuilderBid(ctx, phase0.Slot(op.S), phase0.Hash32{byte(op.S)}, phase0.BLSPubKey{1})
 		default:
 			obs.Problem = "unknown op " + op.K
 		}
